@@ -114,7 +114,9 @@ DurBinds == {
   BDur("di_0", GoO("duration", GoI("0")), "0", "0", "0s"),
   BDur("di_1h", GoO("duration", GoI("3600000000000")), "3600000000000", "-3600000000000", "1h"),
   BDur("di_neg", GoO("duration", GoI("-5000000000")), "-5000000000", "5000000000", ""),
-  BDur("di_min", GoO("duration", GoI("-9223372036854775808")), "", "", ""),
+  \* FormatDuration(MinInt64) = "-9223372036854775808ns": rejected by the old ParseDuration, parsed exactly since
+  \* its overflow repair (/repo 7063cd7); either way the property holds (error, or exactly the bound value)
+  BDur("di_min", GoO("duration", GoI("-9223372036854775808")), "-9223372036854775808", "", ""),
   BDur("dj_90s", GoO("duration", GoJ("90000000000")), "90000000000", "-90000000000", "90s") }
 
 ReBinds == {
